@@ -2,7 +2,11 @@
 //verif:pkg bloom
 package bloom
 
-import "github.com/btcsuite/btcd/chainhash/v2"
+import (
+	"github.com/btcsuite/btcd/btcutil/v2"
+	"github.com/btcsuite/btcd/chainhash/v2"
+	"github.com/btcsuite/btcd/wire/v2"
+)
 
 // ---- BIP37 partial merkle tree extraction (CPartialMerkleTree::TraverseAndExtract), written from the BIP
 type vExtract struct {
@@ -102,5 +106,71 @@ func VH_partial_merkle_tree() {
 		}
 	}
 	vAssert(k == len(x.matchIdx), "nothing but the matched transactions is proven")
+	vReach("end")
+}
+
+var vMatchPlan struct {
+	plan []bool
+	pos  int
+}
+
+func vStubMatchTx(bf *Filter, tx *btcutil.Tx) bool {
+	r := vMatchPlan.plan[vMatchPlan.pos]
+	vMatchPlan.pos++
+	return r
+}
+
+// C20(5b): the merkleblock MESSAGE built by NewMerkleBlock (flag bits packed into bytes, hashes copied) for a block of
+// 1..7 (thorough 9) transactions and any subset matched by the filter (the filter's per-transaction verdict is the
+// environment here): a BIP37 verifier that unpacks the flag bytes proves exactly the matched transactions, in
+// order, and recomputes the merkle root; it consumes every hash; the flag bytes are the minimal number for the bits
+// used (BIP37 verifiers reject a proof with unused flag bytes) and all padding bits are zero; the returned index list
+// is the matched set.
+//verif:opts reach=end,bytealigned noverride=filter.go:Filter.MatchTxAndUpdate:vStubMatchTx
+func VH_merkle_block_message_flag_bytes() {
+	n := 1 + vNondetLen("n", 6+2*vTier())
+	blk := &wire.MsgBlock{}
+	vMatchPlan.plan, vMatchPlan.pos = nil, 0
+	for i := 0; i < n; i++ {
+		tx := wire.NewMsgTx(int32(i + 1))
+		blk.AddTransaction(tx)
+		vMatchPlan.plan = append(vMatchPlan.plan, vNondetBool("matched"))
+	}
+	block := btcutil.NewBlock(blk)
+	leaves := make([]chainhash.Hash, n)
+	for i, tx := range block.Transactions() {
+		leaves[i] = *tx.Hash()
+	}
+	mb, idx := NewMerkleBlock(block, nil)
+	vAssert(mb.Transactions == uint32(n), "transaction count recorded")
+	var bits []byte
+	for i := 0; i < len(mb.Flags)*8; i++ {
+		bits = append(bits, (mb.Flags[i/8]>>(uint(i)%8))&1)
+	}
+	x := &vExtract{numTx: uint32(n), bits: bits, hashes: mb.Hashes}
+	height := uint32(0)
+	for x.width(height) > 1 {
+		height++
+	}
+	root := x.walk(height, 0)
+	vAssert(!x.bad, "the message contains every bit and hash the verifier needs")
+	vAssert(x.hashUsed == len(mb.Hashes), "no unused hashes")
+	vAssert((x.bitsUsed+7)/8 == len(mb.Flags), "no unused flag bytes (BIP37 verifiers reject them)")
+	for i := x.bitsUsed; i < len(bits); i++ {
+		vAssert(bits[i] == 0, "padding bits are zero")
+	}
+	vAssert(root == specRoot(leaves), "the proof recomputes the block's merkle root")
+	k := 0
+	for i := 0; i < n; i++ {
+		if vMatchPlan.plan[i] {
+			vAssert(k < len(x.matchIdx) && x.matchIdx[k] == uint32(i) && x.matchHash[k] == leaves[i], "matched transactions are proven in order")
+			vAssert(k < len(idx) && idx[k] == uint32(i), "and returned as matched indices")
+			k++
+		}
+	}
+	vAssert(k == len(x.matchIdx) && k == len(idx), "nothing but the matched transactions is proven")
+	if x.bitsUsed%8 == 0 {
+		vReach("bytealigned")
+	}
 	vReach("end")
 }
